@@ -8,6 +8,7 @@
 #include <errno.h>
 #include <signal.h>
 #include <sched.h>
+#include <execinfo.h>
 #include <fcntl.h>
 #include <poll.h>
 #include <time.h>
@@ -31,10 +32,44 @@ bool planFromJVal(const JVal& j, Plan& out);
 #ifdef VERIF_ASAN
 extern "C" __attribute__((used)) const char* __asan_default_options()
 {
-	return "exitcode=77:detect_leaks=0:detect_stack_use_after_return=1:abort_on_error=0:handle_abort=0:symbolize=1";
+	return "exitcode=77:detect_leaks=0:detect_stack_use_after_return=1:abort_on_error=0:handle_abort=1:handle_segv=1:symbolize=1";
 }
 extern "C" void __sanitizer_set_death_callback(void (*)(void));
-static void asanDeath() { sim::reportExternalCrash("memory", "sanitizer_report", "AddressSanitizer report (details in the worker log / run with VERIF_ISO_STDERR=1 --replay)"); }
+extern "C" const char* __asan_get_report_description();
+extern "C" void* __asan_get_report_pc();
+extern "C" int __asan_report_present();
+extern "C" void __sanitizer_symbolize_pc(void* pc, const char* fmt, char* out, size_t out_size);
+static void asanDeath()
+{
+	// key = kind of error + function containing the faulting pc, so that distinct defects get distinct keys
+	static char key[300], msg[500], fn[200];
+	const char* d = __asan_report_present() ? __asan_get_report_description() : "abort";
+	fn[0] = 0;
+	{
+		// innermost library frame on the faulting thread's stack
+		void* bt[48];
+		int n = backtrace(bt, 48);
+		for (int i = 0; i < n; i++)
+		{
+			char tmp[200];
+			tmp[0] = 0;
+			__sanitizer_symbolize_pc(bt[i], "%f", tmp, sizeof tmp);
+			if (strncmp(tmp, "asl::", 5) == 0 || strstr(tmp, " asl::"))
+			{
+				snprintf(fn, sizeof fn, "%s", tmp);
+				break;
+			}
+		}
+	}
+	for (char* c = fn; *c; c++)
+		if (*c == '\t' || *c == '\n' || *c == ' ' || *c == ';')
+			*c = '_';
+	if (strstr(fn, "__asan") || strstr(fn, "__interceptor") || strstr(fn, "__sanitizer"))
+		fn[0] = 0;
+	snprintf(key, sizeof key, "%s%s%.180s", d, fn[0] ? ";" : "", fn);
+	snprintf(msg, sizeof msg, "AddressSanitizer: %s in %s (full report in the worker log, or replay with VERIF_ISO_STDERR=1)", d, fn[0] ? fn : "?");
+	sim::reportExternalCrash("memory", key, msg);
+}
 static void armSanitizer() { __sanitizer_set_death_callback(asanDeath); }
 #else
 static void armSanitizer() {}
@@ -293,7 +328,9 @@ static void workerMain(const std::vector<Job>& jobs, int w, int W, long startJob
 {
 	setHardFailHandler(workerHardHandler);
 	setCrashWriter(workerCrashWriter);
+#ifndef VERIF_ASAN
 	installCrashHandlers();
+#endif
 	armSanitizer();
 	std::map<std::string, Agg>& agg = g_agg;
 	std::unordered_set<uint64_t>& sigs = g_sigs;
@@ -452,7 +489,9 @@ static IsoResult runIsolated(const Scenario* sc, const Plan& plan, const SchedCf
 			dup2(nul, 2);
 		setHardFailHandler(isoHardHandler);
 		setCrashWriter(isoCrashWriter);
+#ifndef VERIF_ASAN
 		installCrashHandlers();
+#endif
 		armSanitizer();
 		warmup(sc, g_tier);
 		RunResult res;
